@@ -62,7 +62,11 @@ EXPLANATION = ("Theorems (Props/C06.lean) about the definitions drv_c06 runs: al
                "consensus_of_obs_partial: proved for the set of candidate splits handed to the tree builder, not for their order; the "
                "order (insDesc tie-break) and the first-strict-maximum index mccIndex are tied to the code by the correspondence "
                "(greedy consensus at min_freq 1/4 on tie-rich samples; index compared when the exact maximiser is unique). "
-               "mcc_index_spec: mccIndex is a maximiser of the scores and the first one (fractions with positive denominators). "
+               "mcc_index_spec: mccIndex is a maximiser of the scores and the first one, for score fractions with positive denominators; "
+               "scores_den_pos proves that hypothesis for every array reachable by any history whose tree weights have positive "
+               "denominators; mcc_of_obs: two aligned collections with the same observable and rows up to order report, through "
+               "their own mccIndex, trees of the same (rational) score, and of the same topology when the maximiser is unique. "
+               "The ghost semantics ghostRun is printed by the driver and compared with the harness's book-keeping of held trees. "
                "async_sentinel_every_file_once / sumtrees_async_schedule_independent: queue-level worker protocol with asynchronous "
                "put (Model/C06Proto.lean, driver op async): with blocking get and one end marker per worker every schedule of "
                "deliveries and worker moves ends with all workers stopped, every file read exactly once, and the serial observable.")
@@ -510,8 +514,9 @@ def interim_query(dendropy, tns, ta, o, kind):
             elif kind == "restore":
                 if len(ta):
                     ta.restore_tree(0, summarize_splits_on_tree=True)
-    except Exception:   # noqa
-        pass
+    except Exception as e:   # noqa
+        if len(ta) and o.interim_error is None:
+            o.interim_error = "%s query between additions raised %s: %s" % (kind, type(e).__name__, str(e)[:100])
 
 
 SUMMARY_FIELDS = ("mean", "median", "sd", "range")
@@ -603,6 +608,7 @@ class Reg(object):
         self.sdflags = list(flags)
         self.trees = []       # list of (spec, record)
         self.tainted = False  # holds data counted under settings other than its own (adoption of foreign settings)
+        self.interim_error = None
         self.asserted = False  # an add_tree assert fired on it: the distribution counted a tree the lists do not hold
 
     def off_domain(self):
@@ -770,6 +776,7 @@ def exec_history(ctx, dendropy, case):
             ci = {"error": "%s: %s" % (type(e).__name__, str(e)[:100])}
         if "error" not in ci:
             ci["late"] = late
+            ci["ghost"] = [[e[0] for e in rec["entries"]] for _, rec in o.trees]
         qres, qerr = run_queries(ta, o.trees)
         canons.append((ci, qres, qerr))
         if failed or any(r.startswith("Internal") for r in results):
@@ -816,6 +823,10 @@ def exec_history(ctx, dendropy, case):
             continue
         if freq_differs(ci["freq"], exp["freq"]):
             fail("freq", "array %d: split frequencies %s, weighted fractions are %s" % (i, ci["freq"], exp["freq"]))
+            failed = True
+            continue
+        if o.interim_error:
+            fail("query", "array %d: %s" % (i, o.interim_error))
             failed = True
             continue
         d = summaries_wrong(ci.get("late"), exp)
@@ -924,6 +935,18 @@ def serial_differs(ctx, dendropy, tns, fail, i, o, qres):
     return False
 
 
+def compare_ghost(ctx, case, results, canons, p):
+    """the model's ghost semantics (`ghostRun`, the subject of history_holds_its_trees) against the harness's own book-keeping
+    of which trees every array must hold; the two agree by construction only while no operation is rejected"""
+    if any(r != "ok" for r in results) or p.i >= len(p.t) or p.tok() != "G":
+        return
+    mg = p.lst(lambda: p.lst(lambda: p.lst(p.nat)))
+    ctx.count("ghost semantics compared")
+    hg = [ci.get("ghost") for ci, _, _ in canons]
+    if None not in hg and mg != hg:
+        ctx.disagree("hist ghost semantics", case, hg, mg)
+
+
 def mcc_index_differs(impl_idx, model_idx, scores, tuples=None):
     """the code takes the first strict maximum of float log-sums, the model of exact products: the indices must agree
     whenever the exact maximum is attained once and beats the rest by a safe margin"""
@@ -1004,6 +1027,7 @@ def compare_model(ctx, case, line, results, canons, out):
                 if d:
                     ctx.disagree("hist array %d mcc index" % i, case, qres["logprod"][1], d)
                     return
+    compare_ghost(ctx, case, results, canons, p)
 
 
 # ---------------------------------------------------------------------------------------- history generators
@@ -1162,6 +1186,21 @@ class FakeQueue(object):
 
     put_nowait = put
 
+    def close(self):
+        pass
+
+    def join_thread(self):
+        pass
+
+    def cancel_join_thread(self):
+        pass
+
+    def task_done(self):
+        pass
+
+    def join(self):
+        pass
+
     def empty(self):
         return not self.delivered
 
@@ -1190,6 +1229,7 @@ class FakeQueue(object):
             if not self.items:
                 raise RuntimeError("collation loop would block: fewer results than workers")
             return self.items.pop(0)
+        self.sim.used_block = True
         self.sim.sync(w, "block", self)
         return self.sim.take(w, self)
 
@@ -1227,6 +1267,8 @@ class Sim(object):
         self.st = []
         self.by_thread = {}
         self.taken = []          # (item, worker) in the order taken
+        self.files = []          # the tree sources handed to parallel_analyze_trees (anything else in a queue is a marker)
+        self.used_block = False  # some worker waited in a blocking get(): the end-marker protocol
         self.trace = []          # (chosen index, number of enabled actions)
         self.deadlock = False
 
@@ -1258,7 +1300,6 @@ class Sim(object):
 
     def run(self, results):
         self.ran = True
-        self.sentinels = sum(1 for q in self.queues for x in q.inflight if x is None)
         for i, w in enumerate(self.started):
             st = {"sem": self.threading.Semaphore(0), "pending": ("start", None), "done": False, "exc": None}
             self.st.append(st)
@@ -1311,7 +1352,7 @@ def assignment_policy(assignment):
         for k, a in enumerate(enabled):
             if a[0] == "deliver":
                 return k
-        nfile = len([1 for x, _ in sim.taken if x is not None])
+        nfile = len([1 for x, _ in sim.taken if x in sim.files])
         want = assignment[nfile] if nfile < len(assignment) else None
         steps = [(k, a[1]) for k, a in enumerate(enabled) if a[0] == "step"]
         for k, i in steps:
@@ -1334,29 +1375,40 @@ def run_parallel(dendropy, sumtrees, files, nworkers, assignment, arrival, roote
     sim = Sim(choice_policy(choices) if choices is not None else assignment_policy(assignment), arrival)
     if sim_out is not None:
         sim_out.append(sim)
-    orig_mp = sumtrees.multiprocessing
-    W = sumtrees.TreeAnalysisWorker
-    had_start, had_term = W.__dict__.get("start"), W.__dict__.get("terminate")
-    fake = type("FakeMultiprocessing", (), {"Queue": staticmethod(lambda *a, **k: FakeQueue(sim)), "Lock": staticmethod(FakeLock),
-                                            "Process": orig_mp.Process})
-    sumtrees.multiprocessing = fake
-    W.start = lambda self: sim.started.append(self)
-    W.terminate = lambda self: None
+    import multiprocessing as real_mp
+    sim.files = list(files)
+    make_q = lambda *a, **k: FakeQueue(sim)
+    saved = []
+
+    def patch(obj, name, val):
+        saved.append((obj, name, obj.__dict__.get(name, None), name in obj.__dict__))
+        setattr(obj, name, val)
+    # the primitives are replaced in the multiprocessing module itself, in any alias of it and in any name imported from it
+    # that the sumtrees module holds, and on the Process base class: no dependence on how sumtrees refers to them
+    for name, val in (("Queue", make_q), ("SimpleQueue", make_q), ("JoinableQueue", make_q), ("Lock", FakeLock), ("RLock", FakeLock)):
+        orig = getattr(real_mp, name, None)
+        patch(real_mp, name, val)
+        for attr, cur in list(vars(sumtrees).items()):
+            if orig is not None and cur is orig:
+                patch(sumtrees, attr, val)       # `from multiprocessing import Queue [as X]`
+    patch(real_mp.Process, "start", lambda self: sim.started.append(self))
+    patch(real_mp.Process, "terminate", lambda self: None)
+    patch(real_mp.Process, "join", lambda self, *a, **k: None)
+    patch(real_mp.Process, "is_alive", lambda self: False)
     try:
         tp = sumtrees.TreeProcessor(is_source_trees_rooted=rooted, ignore_edge_lengths=bool(flags[0]), ignore_node_ages=bool(flags[1]),
                                     use_tree_weights=use_weights, ultrametricity_precision=0.0001, taxon_label_age_map=None,
                                     num_processes=nworkers, log_frequency=0, messenger=None, debug_mode=True)
         return tp.parallel_analyze_trees(tree_sources=files, schema="newick", taxon_namespace=tns)
     finally:
-        sumtrees.multiprocessing = orig_mp
-        for name, had in (("start", had_start), ("terminate", had_term)):
-            if had is None:
+        for obj, name, old, had in reversed(saved):
+            if had:
+                setattr(obj, name, old)
+            else:
                 try:
-                    delattr(W, name)
+                    delattr(obj, name)
                 except AttributeError:
                     pass
-            else:
-                setattr(W, name, had)
 
 
 def run_serial(dendropy, sumtrees, files, rooted, tns, use_weights=True, flags=(0, 1, 1)):
@@ -1415,7 +1467,7 @@ def exec_sched(ctx, dendropy, case, sf=None, serial_cache=None):
         except Exception as e:   # noqa
             perr = e
         # which worker actually read which file (nw = nobody: the file was dropped)
-        took = {x: w for x, w in (sims[0].taken if sims else []) if x is not None}
+        took = {x: w for x, w in (sims[0].taken if sims else []) if x in sims[0].files}
         realised = [took.get(pth, nw) for pth in sf.paths]
         dropped = [k for k, a in enumerate(realised) if a == nw]
         if case.get("choices") is not None:
@@ -1425,9 +1477,9 @@ def exec_sched(ctx, dendropy, case, sf=None, serial_cache=None):
         if case.get("choices") is not None:
             # the queue-level protocol model: same schedule, same protocol (end-of-work markers seen <=> blocking get)
             sim = sims[0]
-            blocking = 1 if sim.sentinels else 0
+            blocking = 1 if sim.used_block else 0
             index = {pth: k for k, pth in enumerate(sf.paths)}
-            taken_by = [[index[x] for x, w in sim.taken if w == i and x is not None] for i in range(nw)]
+            taken_by = [[index[x] for x, w in sim.taken if w == i and x in index] for i in range(nw)]
             line = ["async", tu.frac(MODEL_THETA), R(src), str(flags[0]), str(flags[1]), str(uw), str(blocking), str(nw),
                     str(len(case["choices"]))] + [str(x) for x in case["choices"]] + [str(nw)] + [str(x) for x in case["arrival"]]
             line += [str(len(recs))]
@@ -1454,8 +1506,13 @@ def exec_sched(ctx, dendropy, case, sf=None, serial_cache=None):
             results.append(taken_by)
         canons = []
         bad = None
-        if serr is not None:
-            bad = ("sched-serial", "serial SumTrees run raised %s: %s" % (type(serr).__name__, str(serr)[:160]))
+        if serr is not None and perr is not None and type(serr) is type(perr):
+            # both runs refuse the input in the same way: nothing to compare (whether the input should be refused is not C06's business)
+            ctx.note("sched: serial and parallel run both raised %s" % type(serr).__name__)
+            ctx.count("sched both-raise")
+        elif serr is not None:
+            bad = ("sched-serial", "serial SumTrees run raised %s: %s, the parallel run %s" % (
+                type(serr).__name__, str(serr)[:160], "succeeded" if perr is None else "raised %s" % type(perr).__name__))
         elif perr is not None:
             bad = ("sched-rejected", "parallel collation with %d workers, files->workers %s, arrival order %s raised %s: %s; the serial run succeeds" % (
                 nw, realised, case["arrival"], type(perr).__name__, str(perr)[:160]))
@@ -1720,13 +1777,13 @@ def exec_cli(ctx, dendropy, case):
 def run(ctx):
     dendropy = __import__("dendropy")
     rng = ctx.rng
-    ctx.set_budget(40, 780)
+    ctx.set_budget(34, 780)
     pending = []
     # ---- the two hand-reproduced defects, always first (cheap, deterministic)
     for case in seed_cases():
         run_any(ctx, dendropy, case, pending)
     # ---- random histories
-    t_hist = ctx.pick(22, 200)
+    t_hist = ctx.pick(17, 200)
     n = 0
     while n < ctx.pick(700, 12000) and (ctx.budget_s - ctx.time_left()) < t_hist:
         case = gen_history(rng, max_taxa=ctx.pick(7, 9), max_ops=ctx.pick(14, 20))
@@ -1744,7 +1801,7 @@ def run(ctx):
             flush(ctx, pending)
     flush(ctx, pending)
     # ---- sampled schedules on the real SumTrees code
-    t_sched = ctx.pick(12, 60)
+    t_sched = ctx.pick(7, 60)
     t0 = ctx.budget_s - ctx.time_left()
     k = 0
     while k < ctx.pick(200, 1500) and (ctx.budget_s - ctx.time_left()) - t0 < t_sched:
@@ -1767,7 +1824,7 @@ def run(ctx):
     flush(ctx, pending)
     # ---- schedules with asynchronous delivery of the work items (multiprocessing.Queue.put returns before the item is in the pipe)
     if ASYNC_IN_QUICK or ctx.tier == "thorough":
-        sample_async(ctx, dendropy, pending, rng, ctx.pick(80, 400), ctx.pick(3, 420))
+        sample_async(ctx, dendropy, pending, rng, ctx.pick(60, 400), ctx.pick(3, 420))
     ctx.extra.pop("_last_trace", None)
     if ctx.tier == "thorough":
         thorough(ctx, dendropy, pending)
